@@ -2,14 +2,73 @@
 From DT Require Import Model.Bytes Model.Value Model.Tree Model.Interp Proofs.InterpFacts.
 
 Theorem C14_break_signal : forall flits lookup budget inc d c w,
-  write_node flits lookup budget inc (NBreak d) c w = Out (set_brkD d (set_cerr None c)) w (Some EBreak).
+  write_node flits lookup budget inc (NBreak d) c w = Out (set_brkD (Z.max d (brkD c)) (set_cerr None c)) w (Some EBreak).
 Proof. exact break_signal. Qed.
 Print Assumptions C14_break_signal.
 Theorem C14_lazybreak_signal : forall flits lookup budget inc d c w,
-  write_node flits lookup budget inc (NLBreak d) c w = Out (set_brkD d (set_cerr None c)) w (Some ELBreak).
+  write_node flits lookup budget inc (NLBreak d) c w = Out (set_brkD (Z.max d (brkD c)) (set_cerr None c)) w (Some ELBreak).
 Proof. exact lazybreak_signal. Qed.
 Print Assumptions C14_lazybreak_signal.
 Theorem C14_continue_signal : forall flits lookup budget inc c w,
   write_node flits lookup budget inc NContinue c w = Out (set_cerr None c) w (Some ECont).
 Proof. exact continue_signal. Qed.
 Print Assumptions C14_continue_signal.
+
+(* ---- refinement of the reference semantics: control signals (Proofs/RefineNodes.v) ---- *)
+From Coq Require Import String.
+From DT Require Import Model.Mods Spec.Ast Spec.RefEval Spec.Compile Proofs.FlatProofs Proofs.RefineBase
+  Proofs.RefineCond Proofs.RefineList Proofs.RefineNodes Proofs.RefineFindings.
+Local Open Scope Z_scope.
+
+Theorem C14_break_refines :
+  forall flits lookup budget inc rlookup rinc L (lz : bool) n cnd,
+    node_ref flits lookup budget inc rlookup rinc L (if lz then NLBreak n else NBreak n) (ABreak lz n false cnd).
+Proof. exact break_ref. Qed.
+Print Assumptions C14_break_refines.
+
+Theorem C14_break_if_refines :
+  forall flits lookup budget inc rlookup rinc L (lz : bool) n cnd,
+    node_ref flits lookup budget inc rlookup rinc L
+      (NCond (c_cond cnd) [if lz then NLBreak n else NBreak n]) (ABreak lz n true cnd).
+Proof. exact break_if_ref. Qed.
+Print Assumptions C14_break_if_refines.
+
+Theorem C14_continue_refines :
+  forall flits lookup budget inc rlookup rinc L cnd,
+    node_ref flits lookup budget inc rlookup rinc L NContinue (AContinue false cnd).
+Proof. exact continue_ref. Qed.
+Print Assumptions C14_continue_refines.
+
+Theorem C14_continue_if_refines :
+  forall flits lookup budget inc rlookup rinc L cnd,
+    node_ref flits lookup budget inc rlookup rinc L (NCond (c_cond cnd) [NContinue]) (AContinue true cnd).
+Proof. exact continue_if_ref. Qed.
+Print Assumptions C14_continue_if_refines.
+
+(* (how the loops consume the signals and the depth: C03_cloop_refines / C03_rloop_refines) *)
+
+(* excluded, with witnesses: a control instruction inside a for-else branch (the reference
+   semantics reports an error, the interpreter lets the enclosing loop take it), a lazybreak
+   directly inside a bound tag at template level; and, justifying the invariant's non-negative
+   pending depth, a context with a negative one (which no run can build any more: a break takes the
+   maximum with the pending depth) *)
+Theorem C14_break_in_for_else_disagrees :
+  mout t_break_in_else ctx_new = Some (B "ac"%string, None) /\ rout t_break_in_else ctx_new = (B "a"%string, SErr EBreak).
+Proof. exact F3_break_in_for_else. Qed.
+Print Assumptions C14_break_in_for_else_disagrees.
+
+Theorem C14_lazybreak_in_region_at_top_disagrees :
+  mout t_lazy_region ctx_new = Some ([], Some ELBreak) /\ rout t_lazy_region ctx_new = (B "A"%string, SLazy).
+Proof. exact F2_lazybreak_in_region_at_top. Qed.
+Print Assumptions C14_lazybreak_in_region_at_top_disagrees.
+
+Theorem C14_negative_pending_depth_disagrees :
+  mbrk t_neg c_neg = Some (0, Some EWrongLoopLim) /\ rbrk t_neg c_neg = (-1, SErr EWrongLoopLim).
+Proof. exact F9_negative_pending_depth. Qed.
+Print Assumptions C14_negative_pending_depth_disagrees.
+
+(* a later break with a smaller (even negative) depth does not cancel a pending lazybreak 2 *)
+Theorem C14_break_keeps_pending_depth :
+  mout t_lazy_then_break ctx_new = Some (B "abz"%string, None) /\ rout t_lazy_then_break ctx_new = (B "abz"%string, SNone).
+Proof. exact break_keeps_pending_depth. Qed.
+Print Assumptions C14_break_keeps_pending_depth.
